@@ -1,6 +1,7 @@
 import GeoVerif.Corr.Proto
 import GeoVerif.Model.VPTree
 import GeoVerif.Model.GeodProj
+import GeoVerif.Model.IntersectFix
 /-!
 Correspondence for C17.
 
@@ -111,7 +112,7 @@ def handleSearch (args res : List String) : Verdict :=
 
 def handleLoad (args res : List String) : Verdict :=
   match args.mapM parseI with
-  | some [_kind, _seed, n, _bucket, _mseed, _nmut, _qseed, k] =>
+  | some [_kind, _seed, n, _bucket, _mseed, nmut, _qseed, k] =>
     let (r0, rest) := splitAt "T" res
     match parseDump 0 rest with
     | none => .bad "parse"
@@ -119,7 +120,10 @@ def handleLoad (args res : List String) : Verdict :=
       let m := load realspec maxbucket d.toks
       match r0, m with
       | ["E"], .error _ => .ok
-      | ["E"], .ok _ => .bad "Load threw on a token sequence the model of Load/Node::Check accepts"
+      | ["E"], .ok _ =>
+        -- a stricter validation of corrupted files is harmless; an image written by `Save` must load
+        if nmut == 0 then .bad "Load threw on the unmodified image written by Save (the model of Load/Node::Check accepts it)"
+        else .skip "Load rejects a corrupted image the model of Node::Check accepts"
       | "X" :: _, _ => .bad "unexpected exception kind"
       | "K" :: _, .error e => .bad s!"Load accepted a token sequence the model rejects ({e})"
       | "K" :: r1, .ok t =>
@@ -194,13 +198,49 @@ def handleProj (op : String) (args res : List String) : Option Verdict :=
   | "gnom_rev" | "cass_rev" => some (.skip "defining geometry and closure are judged by the harness on the implementation")
   | _ => none
 
+/-! ## Intersect helpers -/
+open GeoVerif.IntersectFix in
+def handleIxm (op : String) (args res : List String) : Option Verdict :=
+  let cl (a b sc : Float) : Bool := closeF a b sc 1e-15
+  match op with
+  | "ixm_fixc" => some <|
+    match args, res with
+    | [a0, a1, a2, a3, a4, a5], [r0, r1, r2] =>
+      match [a0, a1, a2, a3].mapM pfl, parseI a4, parseI a5, pfl r0, pfl r1, parseI r2 with
+      | some [p0x, p0y, px, py], some pc, some c, some rx, some ry, some rc =>
+        let m := fixcoincident (α := Float) ⟨p0x, p0y, 0⟩ ⟨px, py, pc⟩ c
+        let sc := Float.abs p0x + Float.abs p0y + Float.abs px + Float.abs py
+        if cl m.x rx sc && cl m.y ry sc && m.c == rc then .ok
+        else .bad s!"Intersect::fixcoincident: impl=({shw rx},{shw ry},{rc}) model=({shw m.x},{shw m.y},{m.c})"
+      | _, _, _, _, _, _ => .bad "parse"
+    | _, _ => .bad "parse"
+  | "ixm_segmode" => some <|
+    match args.mapM pfl, res with
+    | some [sx, sy, px, py], [r] =>
+      let m := segmentmode (α := Float) sx sy ⟨px, py, 0⟩
+      if parseI r == some m then .ok else .bad s!"Intersect::segmentmode: impl={r} model={m}"
+    | _, _ => .bad "parse"
+  | "ixm_fixseg" => some <|
+    match args, res with
+    | [a0, a1, a2, a3, a4], [r0, r1, r2] =>
+      match [a0, a1, a2, a3].mapM pfl, parseI a4, pfl r0, pfl r1, parseI r2 with
+      | some [sx, sy, px, py], some pc, some rx, some ry, some rc =>
+        let m := fixsegment (α := Float) sx sy ⟨px, py, pc⟩
+        let sc := Float.abs sx + Float.abs sy + Float.abs px + Float.abs py
+        if cl m.x rx sc && cl m.y ry sc && m.c == rc then .ok
+        else .bad s!"Intersect::fixsegment: impl=({shw rx},{shw ry},{rc}) model=({shw m.x},{shw m.y},{m.c})"
+      | _, _, _, _, _ => .bad "parse"
+    | _, _ => .bad "parse"
+  | _ => none
+
 def handle (op : String) (args res : List String) : Option Verdict :=
   match op with
   | "nn_search" => some (handleSearch args res)
   | "nn_load" => some (handleLoad args res)
-  | "nn_bulk" | "nn_geo" | "nn_loadraw" => some (.skip "brute-force / robustness oracle in the harness")
+  | "nn_bulk" | "nn_geo" | "nn_loadraw" | "nn_loaddag" => some (.skip "brute-force / robustness oracle in the harness")
   | _ =>
-    if op.startsWith "ix_" then some (.skip "Intersect: oracles in the harness (no model of the tiling search)")
+    if op.startsWith "ixm_" then handleIxm op args res
+    else if op.startsWith "ix_" then some (.skip "Intersect: oracles in the harness (no model of the tiling search)")
     else handleProj op args res
 
 end GeoVerif.Corr.C17
